@@ -3861,6 +3861,15 @@ impl Zeroconf {
                     self.add_timer(t);
                 }
 
+                // Forget the instance's own records on every interface: a probe still
+                // running for them must not go on, and what is left in `active` would
+                // make a later registration of the same name look already announced.
+                for registry in self.dns_registry_map.values_mut() {
+                    let name = registry.resolve_name(info.get_fullname()).to_string();
+                    registry.probing.remove(&name);
+                    registry.active.remove(&name);
+                }
+
                 self.increase_counter(Counter::Unregister, 1);
                 UnregisterStatus::OK
             }
